@@ -224,8 +224,10 @@ TEXT = {
           "the period-point reader and the election lookup answer what a node that only ever saw the current chain answers "
           "(points_no_trace, election_no_trace; invariant: every stored entry is what a computation from scratch gives on the "
           "chain its end/proof hash names — it does not mention the node's chain, which is why the delete events do nothing), "
-          "the epoch reader for every epoch finished on the current chain (epoch_points_no_trace); the end-hash comparison is "
-          "necessary (points_without_endhash_check_stale: the seeded readers serve the abandoned branch's producer); after "
+          "and so does the epoch reader for every epoch, finished or running (epoch_points_no_trace, unconditional since b4e9eef); "
+          "the end-hash comparison and the epoch reader's is-finished test are necessary (points_without_endhash_check_stale: "
+          "the seeded readers serve the abandoned branch's producer; epoch_served_while_unfinished_keeps_trace: the reader before "
+          "the repair of FX1 counts periods that have not started); after "
           "any interleaving of readers with RollbackTo every pool manager was built from the ledger as it is now and every "
           "pooled block acknowledges a momentum of the current chain (pool_no_trace), which fails for notify-before-pop and "
           "for a partial drop (two witnesses); the shape of GetPoint / generateProducers / RollbackTo / DeleteMomentum in the "
@@ -236,8 +238,8 @@ TEXT = {
           "are skipped by every iterator since 522bff7: a regression shows as a listed-but-absent key in the vdb scan monitor "
           "and as F22 in the ledger stream); "
           "the consensus and pool theorems are over an arbitrary specification of the computed values under the hash-chaining "
-          "hypothesis ChainWF; the statistics of an UNFINISHED epoch right after a rollback to its last momentum keep a trace "
-          "(known finding FX1, proved as a witness and reproduced); pool block content and fork rules are C14's model.",
+          "hypothesis ChainWF; finding FX1 (statistics of an unfinished epoch right after a rollback to its last momentum) was "
+          "predicted by this model, reproduced and repaired (b4e9eef); pool block content and fork rules are C14's model.",
   "technique": "Lean 4 proof (invariant over reachable manager states; cache invariant keyed by hash over reachable node states; "
                "negative witnesses by evaluation) + regenerated AST facts + differential correspondence on op sequences",
  },
